@@ -156,9 +156,10 @@ func ProvideCalculateVoteResultsAndVotingPowerFn(authKeeper AccountKeeper, staki
 		if err != nil {
 			return math.LegacyDec{}, nil, err
 		}
-		if !totalBonded.IsZero() {
-			denominator := totalBonded.Sub(shareclassBonded)
-
+		// When all bonded stake is non-voting nobody has voting power (totalVP is zero) and there is nothing to
+		// rescale; dividing by the zero denominator would panic in the gov EndBlocker.
+		denominator := totalBonded.Sub(shareclassBonded)
+		if denominator.IsPositive() {
 			numerator := totalVP.MulInt(totalBonded)
 			totalVP = numerator.Quo(math.LegacyNewDecFromInt(denominator))
 		}
